@@ -328,4 +328,116 @@ func Sweeps(thorough bool, f func(name string, m ref.Msg, fits bool)) {
 		}
 		f(fmt.Sprintf("AKA.subset=%07b", mask), one(aka(1, 3, 1, ats...)), true)
 	}
+	// traffic selector address shapes: every pair (start, end) of the special address forms of each family
+	// (unspecified, all-ones, loopback, IPv4-mapped and IPv4-compatible IPv6, leading / trailing zeros)
+	v6 := [][]byte{make([]byte, 16), bytesOf(0xff, 16), append(make([]byte, 15), 1),
+		append(append(make([]byte, 10), 0xff, 0xff), 192, 168, 1, 7), append(append(make([]byte, 10), 0xff, 0xff), 0, 0, 0, 0),
+		append(make([]byte, 12), 10, 0, 0, 1), append([]byte{0xfe, 0x80}, make([]byte, 14)...), append([]byte{0x20, 0x01, 0x0d, 0xb8}, Pat(12, 9)...),
+		append(append([]byte{0, 0x64, 0xff, 0x9b}, make([]byte, 8)...), 8, 8, 8, 8)}
+	v4 := [][]byte{{0, 0, 0, 0}, {255, 255, 255, 255}, {127, 0, 0, 1}, {10, 0, 0, 0}, {0, 0, 0, 1}, {224, 0, 0, 251}, {192, 168, 1, 7}}
+	for i, a := range v6 {
+		for j, b := range v6 {
+			sl := ref.Selector{Type: 8, Proto: uint8(i), SPort: uint16(j), EPort: 65535, SAddr: a, EAddr: b}
+			f(fmt.Sprintf("TSi.v6shape=%d/%d", i, j), one(ref.Payload{T: ref.PTSi, TS: []ref.Selector{sl}}), true)
+			f(fmt.Sprintf("TSr.v6shape=%d/%d", i, j), one(ref.Payload{T: ref.PTSr, TS: []ref.Selector{sel4(0, 0, 65535, 1, 2), sl}}), true)
+		}
+	}
+	for i, a := range v4 {
+		for j, b := range v4 {
+			sl := ref.Selector{Type: 7, Proto: uint8(i), SPort: uint16(j), EPort: 65535, SAddr: a, EAddr: b}
+			f(fmt.Sprintf("TSi.v4shape=%d/%d", i, j), one(ref.Payload{T: ref.PTSi, TS: []ref.Selector{sl, sel6(0, 0, 65535, 3)}}), true)
+			f(fmt.Sprintf("TSr.v4shape=%d/%d", i, j), one(ref.Payload{T: ref.PTSr, TS: []ref.Selector{sl}}), true)
+		}
+	}
+	// protocol constants in combination: exchange type × request/response/initiator flags × every notify type the
+	// RFCs name × position in the chain (a codec that treats one combination specially — reordering, dropping,
+	// rewriting — shows only here)
+	var ntypes []uint16
+	for _, t := range []uint16{1, 4, 5, 7, 9, 11, 14, 17, 24, 34, 35, 36, 37, 38, 39, 40, 41, 42, 43, 44, 45, 46, 47} {
+		ntypes = append(ntypes, t)
+	}
+	for t := uint16(16384); t <= 16450; t++ {
+		ntypes = append(ntypes, t)
+	}
+	for _, ex := range []uint8{34, 35, 36, 37, 43} {
+		for _, fl := range []uint8{0x00, 0x08, 0x20, 0x28} {
+			h := BaseHdr
+			h.Exch, h.Flags = ex, fl
+			for _, nt := range ntypes {
+				n := ref.Payload{T: ref.PNotify, B: 0, NType: nt, Data: Pat(int(nt%23), int(nt))}
+				f(fmt.Sprintf("exch×flags×notify@2=%d/%02x/%d", ex, fl, nt), ref.Msg{H: h, P: []ref.Payload{{T: ref.PNonce, Data: Pat(16, 1)}, n}}, true)
+				f(fmt.Sprintf("exch×flags×notify@3=%d/%02x/%d", ex, fl, nt), ref.Msg{H: h, P: []ref.Payload{{T: ref.PNotify, B: 1, NType: 16388, Data: Pat(20, 2)}, {T: ref.PKE, Group: 14, Data: Pat(8, 3)}, n}}, true)
+			}
+		}
+	}
+	// payload order: every permutation of the payload set typical of each exchange, as request and as response
+	sets := []struct {
+		ex uint8
+		ps []ref.Payload
+	}{
+		{34, []ref.Payload{{T: ref.PSA, SA: []ref.Proposal{ikeProposal(1)}}, {T: ref.PKE, Group: 14, Data: Pat(16, 1)}, {T: ref.PNonce, Data: Pat(16, 2)},
+			{T: ref.PNotify, NType: 16390, Data: Pat(12, 3)}, {T: ref.PNotify, NType: 16388, Data: Pat(20, 4)}, {T: ref.PVendor, Data: Pat(5, 5)}}},
+		{35, []ref.Payload{{T: ref.PIDi, B: 2, Data: []byte("a.b")}, {T: ref.PCERT, B: 4, Data: Pat(9, 1)}, {T: ref.PAUTH, B: 2, Data: Pat(20, 2)},
+			{T: ref.PSA, SA: []ref.Proposal{{Num: 1, Proto: 3, SPI: Pat(4, 3), Tr: []ref.Transform{tv(1, 12, 14, 128), tr(3, 2), tr(5, 0)}}}},
+			{T: ref.PTSi, TS: []ref.Selector{sel4(0, 0, 65535, 1, 2)}}, {T: ref.PTSr, TS: []ref.Selector{sel4(0, 0, 65535, 3, 4)}}}},
+		{36, []ref.Payload{{T: ref.PNotify, B: 3, NType: 16393, SPI: Pat(4, 1)}, {T: ref.PSA, SA: []ref.Proposal{{Num: 1, Proto: 3, SPI: Pat(4, 3), Tr: []ref.Transform{tv(1, 12, 14, 128), tr(5, 0)}}}},
+			{T: ref.PNonce, Data: Pat(16, 2)}, {T: ref.PKE, Group: 2, Data: Pat(8, 1)}, {T: ref.PDelete, B: 3, SSize: 4, NSPI: 1, SPIs: []uint32{7}}, {T: ref.PCP, B: 1, CP: []ref.CPAttr{{Type: 1}}}}},
+		{37, []ref.Payload{{T: ref.PDelete, B: 1}, {T: ref.PDelete, B: 3, SSize: 4, NSPI: 2, SPIs: []uint32{7, 9}}, {T: ref.PNotify, NType: 16384}, {T: ref.PCP, B: 2, CP: []ref.CPAttr{{Type: 1, Val: []byte{10, 0, 0, 1}}}},
+			{T: ref.PVendor, Data: Pat(3, 1)}, {T: ref.PEAP, EAP: &ref.EAP{Code: 3, ID: 9}}}},
+	}
+	for si, st := range sets {
+		if !thorough && si >= 2 {
+			// quick: the two initial exchanges in full; the other two sets every 4th permutation
+		}
+		idx := 0
+		permute(len(st.ps), func(pm []int) {
+			idx++
+			if !thorough && si >= 2 && idx%4 != 0 {
+				return
+			}
+			ps := make([]ref.Payload, len(pm))
+			for i, j := range pm {
+				ps[i] = st.ps[j]
+			}
+			for _, fl := range []uint8{0x08, 0x20} {
+				h := BaseHdr
+				h.Exch, h.Flags = st.ex, fl
+				f(fmt.Sprintf("order.exch=%d/%02x/%v", st.ex, fl, pm), ref.Msg{H: h, P: ps}, true)
+			}
+		})
+	}
+}
+
+func bytesOf(v byte, n int) []byte {
+	b := make([]byte, n)
+	for i := range b {
+		b[i] = v
+	}
+	return b
+}
+
+// permute calls f with every permutation of 0..n-1 (lexicographic order).
+func permute(n int, f func([]int)) {
+	p := make([]int, n)
+	for i := range p {
+		p[i] = i
+	}
+	for {
+		f(append([]int(nil), p...))
+		i := n - 2
+		for i >= 0 && p[i] >= p[i+1] {
+			i--
+		}
+		if i < 0 {
+			return
+		}
+		j := n - 1
+		for p[j] <= p[i] {
+			j--
+		}
+		p[i], p[j] = p[j], p[i]
+		for a, b := i+1, n-1; a < b; a, b = a+1, b-1 {
+			p[a], p[b] = p[b], p[a]
+		}
+	}
 }
